@@ -22,10 +22,10 @@ def groups(tier):
     names = ("opni_load_contract", "ins_parse_contract", "ins_parse_frame_contract", "bank_load_seg", "bank_layout_lemma", "opni_load_save_load")
     gs = [g for g in C15.groups(tier) if g.name.startswith(names)]
     gs.append(Group("noteOn_contract", "harness/opn2_h.c", "h_noteOn", enforce="noteOn", replace=["exp"], extract=_x_noteon,
-                    unwindset="noteOn.0:9,noteOn.1:45,noteOn.2:5", required=[r"postcondition", r"assigns", r"unwind"], timeout=900, object_bits=9,
+                    loops=True, pre_unwindset="noteOn.2:5", unwindset="h_noteOn.0:5", required=[r"postcondition", r"assigns", r"loop_invariant_step", r"decreases|loop_decreases|variant"], timeout=900, object_bits=9,
                     flags=["--float-overflow-check", "--nan-check", "--conversion-check"],
                     funcs=["OPN2::noteOn", "OPN2::writeRegI", "getOpnChannel", "s_commonFreq"],
-                    note="every double tone; both halving loops unwound with unwinding assertions (7 resp. at most 40 halvings from 1e12*coef) = termination for all inputs"))
+                    note="every double tone; both halving loops carry loop contracts (invariant: finite, non-negative, bounded; variants: the octave counter and the integer part of the frequency) = termination for all inputs, no unwinding bound"))
     gs.append(Group("noteOff_contract", "harness/opn2_h.c", "h_noteOff", enforce="noteOff", extract=_x_noteon, required=[r"postcondition"], object_bits=9,
                     funcs=["OPN2::noteOff"]))
     return gs
